@@ -10,7 +10,7 @@ from bacpypes.vlan import Node, IPNode, Network
 from bacpypes.local.device import LocalDeviceObject
 from bacpypes.object import AnalogValueObject, BinaryValueObject, WritableProperty, register_object_type
 from bacpypes.primitivedata import Real
-from bacpypes.service.device import WhoIsIAmServices
+from bacpypes.service.device import WhoIsIAmServices, DeviceCommunicationControlServices
 from bacpypes.service.object import ReadWritePropertyServices, ReadWritePropertyMultipleServices
 from bacpypes.service.cov import ChangeOfValueServices
 from bacpypes import core as _core
@@ -25,6 +25,9 @@ TESTER_TUPLE = ("192.168.1.9", 47808)
 TESTER2_MAC = 8
 TESTER2_TUPLE = ("192.168.1.8", 47808)
 DEVICE_TUPLE = ("192.168.1.5", 47808)
+TWIN_MAC = 6
+TWIN_IP = "192.168.1.6/24"
+TWIN_TUPLE = ("192.168.1.6", 47808)
 
 
 class _QuietNSE(NetworkServiceElement):
@@ -32,7 +35,7 @@ class _QuietNSE(NetworkServiceElement):
 
 
 class DevApp(ApplicationIOController, WhoIsIAmServices, ReadWritePropertyServices, ReadWritePropertyMultipleServices,
-             ChangeOfValueServices):
+             ChangeOfValueServices, DeviceCommunicationControlServices):
     pass
 
 
@@ -69,15 +72,26 @@ class FauxMux(Client, Server):
 
 
 class Device(object):
-    def __init__(self, level="lan"):
-        vclock.reset(0.0)
+    def __init__(self, level="lan", twin=False, keep_clock=False):
+        """twin: a second complete device (instance 2, station 6) on the same network in the same interpreter;
+        keep_clock: do not reset the virtual clock (a device created while an older one is still around)."""
+        if not keep_clock:
+            vclock.reset(0.0)
         self.level = level
         self.wire = Wire()
         self.errors = []
-        dev = LocalDeviceObject(objectName="dev", objectIdentifier=("device", 1), vendorIdentifier=999,
+        self.net = CtlNetwork(self.wire, "lan") if level == "lan" else CtlIPNetwork(self.wire, "ip")
+        self.app, self.av, self.bv = self._stack(1, DEVICE_MAC, DEVICE_IP)
+        self.twin = self._stack(2, TWIN_MAC, TWIN_IP)[0] if twin else None
+        vclock.settle()
+        self.baseline_tasks = len(vclock.pending_tasks())
+
+    def _stack(self, instance, mac, ip):
+        level = self.level
+        dev = LocalDeviceObject(objectName="dev", objectIdentifier=("device", instance), vendorIdentifier=999,
                                 maxApduLengthAccepted=1024, segmentationSupported="segmentedBoth", maxSegmentsAccepted=16,
                                 numberOfApduRetries=1, apduTimeout=3000, apduSegmentTimeout=1000)
-        self.app = app = DevApp(dev)
+        app = DevApp(dev)
         app.asap = ApplicationServiceAccessPoint()
         app.smap = StateMachineAccessPoint(dev)
         app.smap.deviceInfoCache = app.deviceInfoCache
@@ -86,33 +100,32 @@ class Device(object):
         bind(app.nse, app.nsap)
         bind(app, app.asap, app.smap, app.nsap)
         if level == "lan":
-            self.net = CtlNetwork(self.wire, "lan")
-            self.node = Node(Address(DEVICE_MAC), self.net)
-            app.nsap.bind(self.node)
+            app._node = Node(Address(mac), self.net)
+            app.nsap.bind(app._node)
         else:
-            self.net = CtlIPNetwork(self.wire, "ip")
-            addr = Address(DEVICE_IP)
-            self.bip = BIPSimple()
-            self.annexj = AnnexJCodec()
-            self.mux = FauxMux(addr, self.net)
-            bind(self.bip, self.annexj, self.mux)
-            app.nsap.bind(self.bip, address=addr)
-        self.av = WritableAnalogValueObject(objectIdentifier=("analogValue", 1), objectName="av1", presentValue=1.0,
-                                    statusFlags=[0, 0, 0, 0], covIncrement=1.0,
-                                            description="a description of sixty characters, two segments of fifty")
-        self.bv = BinaryValueObject(objectIdentifier=("binaryValue", 1), objectName="bv1", presentValue="inactive",
-                                    statusFlags=[0, 0, 0, 0])
-        app.add_object(self.av)
-        app.add_object(self.bv)
-        vclock.settle()
-        self.baseline_tasks = len(vclock.pending_tasks())
+            addr = Address(ip)
+            app._bip = BIPSimple()
+            app._annexj = AnnexJCodec()
+            app._mux = FauxMux(addr, self.net)
+            bind(app._bip, app._annexj, app._mux)
+            app.nsap.bind(app._bip, address=addr)
+        av = WritableAnalogValueObject(objectIdentifier=("analogValue", 1), objectName="av1", presentValue=1.0,
+                                       statusFlags=[0, 0, 0, 0], covIncrement=1.0,
+                                       description="a description of sixty characters, two segments of fifty")
+        bvo = BinaryValueObject(objectIdentifier=("binaryValue", 1), objectName="bv1", presentValue="inactive",
+                                statusFlags=[0, 0, 0, 0])
+        app.add_object(av)
+        app.add_object(bvo)
+        return app, av, bvo
 
-    def inject(self, octets, settle=True, other=False):
-        """Put raw octets on the wire toward the device, as sent by the tester station (other=True: by a second station)."""
+    def inject(self, octets, settle=True, other=False, twin=False):
+        """Put raw octets on the wire toward the device (twin=True: toward the second device), as sent by the tester
+        station (other=True: by a second station)."""
         if self.level == "lan":
-            pdu = PDU(octets, source=Address(TESTER2_MAC if other else TESTER_MAC), destination=Address(DEVICE_MAC))
+            pdu = PDU(octets, source=Address(TESTER2_MAC if other else TESTER_MAC),
+                      destination=Address(TWIN_MAC if twin else DEVICE_MAC))
         else:
-            pdu = PDU(octets, source=TESTER2_TUPLE if other else TESTER_TUPLE, destination=DEVICE_TUPLE)
+            pdu = PDU(octets, source=TESTER2_TUPLE if other else TESTER_TUPLE, destination=TWIN_TUPLE if twin else DEVICE_TUPLE)
         try:
             Network.process_pdu(self.net, pdu)
         except Exception as err:      # mirror of the catch-all of core.run around the delivering task
@@ -160,9 +173,17 @@ class Device(object):
         """Octets of every frame the device put on the wire (toward anybody), in order."""
         return [(dst, data) for (t, net, src, dst, data) in self.wire.log]
 
-    def residue(self):
+    def sent_by(self, twin=False, start=0):
+        """(dst, octets) of the frames one of the two devices sent (from position `start` of the wire log on)."""
+        if self.level == "lan":
+            me = str(TWIN_MAC if twin else DEVICE_MAC)
+            return [(dst, data) for (t, net, src, dst, data) in self.wire.log[start:] if src == me]
+        me = (TWIN_TUPLE if twin else DEVICE_TUPLE)[0]
+        return [(dst, data) for (t, net, src, dst, data) in self.wire.log[start:] if me in src]
+
+    def residue(self, twin=False):
         out = {}
-        smap = self.app.smap
+        smap = (self.twin if twin else self.app).smap
         if smap.clientTransactions:
             out["clientTransactions"] = [(t.invokeID, t.state) for t in smap.clientTransactions]
         if smap.serverTransactions:
